@@ -15,7 +15,7 @@ Open Scope string_scope.
 Open Scope nat_scope.
 
 (* ================================================================== template *)
-Lemma template_items l : forall pos, template_of (items_of pos (dpieces l)) = ttemplate l.
+Lemma template_items lay l : forall pos, template_of (items_of pos (dpieces lay l)) = ttemplate l.
 Proof.
   unfold dpieces. induction l as [|x l IH]; intros pos; [reflexivity|].
   destruct x; cbn [map dpiece items_of template_of ttemplate]; rewrite IH; reflexivity.
@@ -160,8 +160,11 @@ Lemma space_inert : forall c, is_space c = true -> inert c && negb (Ascii.eqb c 
 Proof. sweep. Qed.
 
 Section Fixed.
+  Variable lay : layout.
   Variable y : string.
   Variable ky : Z.
+  Variable plus : bool.
+  Hypothesis Hlhs : lay y (IInt ky) = ("", "", plus).         (* no blanks inside the left-hand bracket: finding #22 *)
   Variable ws rhs : list ntok.
   Let lhs : list ntok := NTerm y (IInt ky) :: ws.
   Let q : neq := mkNeq lhs rhs.
@@ -170,33 +173,33 @@ Section Fixed.
   Hypothesis Hkw : kw_free y = true.
   Hypothesis Hshort : short_int ky = true.
   Hypothesis Hws : forallb (fun x => match x with NChr c => is_space c | _ => false end) ws = true.
-  Hypothesis Hrhs : dwf_k false rhs "" = true.
-  Hypothesis Htext : all_chars text_char_ok (denorm_text q) = true.
-  Hypothesis Hpar : count_parens 0 (denorm_text q) = Some 0.
+  Hypothesis Hrhs : dwf_k lay false rhs "" = true.
+  Hypothesis Htext : all_chars text_char_ok (denorm_text lay q) = true.
+  Hypothesis Hpar : count_parens 0 (denorm_text lay q) = Some 0.
   Hypothesis Hnorm : normal (ttemplate whole) = true.
 
   (* the blanks after the assigned term *)
-  Definition wtext : string := dflat ws.
+  Definition wtext : string := dflat lay ws.
   Lemma ws_chars : blanks wtext = true /\ nflat ws = wtext /\ cflat ws = wtext /\ term_toks ws = [] /\ tok_terms TEndogenous ws = []
-                   /\ ttemplate ws = wtext /\ (forall pw k, dwf_k pw ws k = true).
+                   /\ ttemplate ws = wtext /\ (forall pw k, dwf_k lay pw ws k = true).
   Proof.
     unfold wtext, blanks. clear Hrhs Htext Hpar Hnorm. induction ws as [|x l IH]; [repeat split; reflexivity|].
     cbn [forallb] in Hws. apply andb_true_iff in Hws as [Hx Hl]. destruct x as [| | | |c]; try discriminate.
     destruct (IH Hl) as (B & N & C & T & K & P & D).
-    cbn [dflat dtext ntok_text all_chars nflat cflat tok_code term_toks tok_terms tok_term ttemplate append].
+    cbn [Denorm.dflat Denorm.dtext ntok_text all_chars nflat cflat tok_code term_toks tok_terms tok_term ttemplate append].
     rewrite Hx, B, N, C, T, K, P. repeat split; try reflexivity.
-    intros pw k. cbn [dwf_k dtok_ok ntok_ok]. pose proof (space_inert c Hx) as I. apply andb_true_iff in I as [I _]. rewrite I. cbn [orb andb]. apply D.
+    intros pw k. cbn [Denorm.dwf_k Denorm.dtok_ok ntok_ok]. pose proof (space_inert c Hx) as I. apply andb_true_iff in I as [I _]. rewrite I. cbn [orb andb]. apply D.
   Qed.
 
-  Definition atext : string := y ++ "[" ++ dz ky ++ "]".
+  Definition atext : string := y ++ "[" ++ ibody plus (IInt ky) ++ "]".
   Lemma atext_nospace : all_chars (fun c => negb (is_space c)) atext = true /\ has_char "=" atext = false /\ atext <> "".
   Proof.
     destruct (ident_nonempty _ Hid) as (c & r & En & Hc & Hall). unfold atext.
     assert (A1 : all_chars (fun c => negb (is_space c) && negb (Ascii.eqb c "=")) y = true)
       by (apply (all_chars_impl is_idc _ y idc_not_space Hall)).
-    assert (A2 : all_chars (fun c => negb (is_space c) && negb (Ascii.eqb c "=")) (dz ky) = true)
-      by (apply (all_chars_impl idxc _ (dz ky) idxc_not_space_eq (dz_chars ky))).
-    assert (A : all_chars (fun c => negb (is_space c) && negb (Ascii.eqb c "=")) (y ++ "[" ++ dz ky ++ "]") = true).
+    assert (A2 : all_chars (fun c => negb (is_space c) && negb (Ascii.eqb c "=")) (ibody plus (IInt ky)) = true)
+      by (apply (all_chars_impl idxc _ _ idxc_not_space_eq (ibody_chars plus ky))).
+    assert (A : all_chars (fun c => negb (is_space c) && negb (Ascii.eqb c "=")) (y ++ "[" ++ ibody plus (IInt ky) ++ "]") = true).
     { rewrite !all_chars_app, A1, A2. reflexivity. }
     split; [|split].
     - apply (all_chars_impl _ _ _ (fun c H => proj1 (proj1 (andb_true_iff _ _) H)) A).
@@ -204,10 +207,10 @@ Section Fixed.
     - rewrite En. discriminate.
   Qed.
 
-  Let E : string := denorm_text q.
+  Let E : string := denorm_text lay q.
 
-  Lemma E_shape : E = atext ++ wtext ++ String "=" (dflat rhs).
-  Proof. unfold E, denorm_text, q, lhs. cbn [nlhs nrhs dflat dtext didx]. fold wtext. fold atext. rewrite sapp_assoc. reflexivity. Qed.
+  Lemma E_shape : E = atext ++ wtext ++ String "=" (dflat lay rhs).
+  Proof. unfold E, denorm_text, q, lhs. cbn [nlhs nrhs Denorm.dflat Denorm.dtext]. rewrite Hlhs. cbn [append]. fold wtext. fold atext. rewrite sapp_assoc. reflexivity. Qed.
 
   Lemma E_head : exists c r, E = String c r /\ is_alpha_ c = true.
   Proof.
@@ -242,7 +245,7 @@ Section Fixed.
   Lemma E_stmt_ok : stmt_ok E = true.
   Proof.
     destruct atext_nospace as (HA & _ & HAne). destruct ws_chars as (HW & _).
-    pose proof (alt_single_assign atext wtext (dflat rhs) HAne HA HW) as S. rewrite <- E_shape in S.
+    pose proof (alt_single_assign atext wtext (dflat lay rhs) HAne HA HW) as S. rewrite <- E_shape in S.
     destruct E_head as (c & r & Ee & Hc). unfold stmt_ok. rewrite Ee in *. cbn [stmt_ok_from]. unfold alt_here. rewrite S.
     rewrite !orb_true_r. reflexivity.
   Qed.
@@ -258,20 +261,20 @@ Section Fixed.
     rewrite E_not_blank, E_stmt_ok. cbn [split_lines unmatched Nat.eqb]. reflexivity.
   Qed.
 
-  Lemma lhs_dwf k : dwf_k false lhs k = true.
+  Lemma lhs_dwf k : dwf_k lay false lhs k = true.
   Proof.
-    unfold lhs. cbn [dwf_k dtok_ok didx]. rewrite Hid, Hkw, (idx_ok_dz ky). unfold short_int in Hshort. rewrite Hshort. cbn [andb].
+    unfold lhs. cbn [Denorm.dwf_k Denorm.dtok_ok]. rewrite Hlhs, Hid, Hkw, (idx_ok_ibody plus ky). unfold short_int in Hshort. rewrite Hshort. cbn [andb all_chars].
     destruct ws_chars as (_ & _ & _ & _ & _ & _ & D). apply D.
   Qed.
 
-  Lemma whole_dwf : dwf_k false whole "" = true.
+  Lemma whole_dwf : dwf_k lay false whole "" = true.
   Proof.
-    unfold whole. rewrite dwf_k_app, lhs_dwf. cbn [andb dwf_k dtok_ok ntok_ok].
-    replace (inert "=") with true by (vm_compute; reflexivity). cbn [orb andb dtext ntok_text last_word].
+    unfold whole. rewrite dwf_k_app, lhs_dwf. cbn [andb Denorm.dwf_k Denorm.dtok_ok ntok_ok].
+    replace (inert "=") with true by (vm_compute; reflexivity). cbn [orb andb Denorm.dtext ntok_text last_word].
     replace (is_word "=") with false by (vm_compute; reflexivity). exact Hrhs.
   Qed.
 
-  Lemma whole_text : dflat whole = E.
+  Lemma whole_text : dflat lay whole = E.
   Proof. unfold whole, E, denorm_text, q. rewrite dflat_app. reflexivity. Qed.
 
   Lemma E_terms : parse_equation_terms E = Ret (neq_terms q).
@@ -280,9 +283,10 @@ Section Fixed.
     assert (Hno : has_char "=" (atext ++ wtext) = false).
     { rewrite has_char_app, HAeq. unfold blanks in HW.
       apply (all_chars_no_char is_space "=" wtext); [vm_compute; reflexivity|exact HW]. }
-    unfold parse_equation_terms. rewrite E_shape, <- sapp_assoc, (find_any_app "=" (atext ++ wtext) (dflat rhs) Hno).
-    assert (EL : atext ++ wtext = dflat lhs) by (unfold lhs; reflexivity).
-    rewrite EL, (dparse_terms lhs (lhs_dwf "")), (dparse_terms rhs Hrhs).
+    unfold parse_equation_terms. rewrite E_shape, <- sapp_assoc, (find_any_app "=" (atext ++ wtext) (dflat lay rhs) Hno).
+    assert (EL : atext ++ wtext = dflat lay lhs).
+    { unfold lhs. cbn [Denorm.dflat Denorm.dtext]. rewrite Hlhs. cbn [append]. reflexivity. }
+    rewrite EL, (dparse_terms lay lhs (lhs_dwf "")), (dparse_terms lay rhs Hrhs).
     rewrite (replace_type_terms TEndogenous lhs) by discriminate. rewrite (replace_type_terms TExogenous rhs) by discriminate.
     rewrite (tok_terms_no_invalid TExogenous rhs) by discriminate.
     unfold neq_terms, q, lhs. cbn [nlhs nrhs tok_terms tok_term]. rewrite HK. cbn [has_type existsb ttype type_eqb orb negb]. reflexivity.
@@ -290,7 +294,7 @@ Section Fixed.
 
   Lemma E_template : template E = ttemplate whole.
   Proof.
-    unfold template. rewrite <- whole_text, (dscan_items whole whole_dwf), template_items. apply normal_fixed, Hnorm.
+    unfold template. rewrite <- whole_text, (dscan_items lay whole whole_dwf), template_items. apply normal_fixed, Hnorm.
   Qed.
 
   Lemma term_toks_app a b : term_toks (a ++ b) = (term_toks a ++ term_toks b)%list.
@@ -305,10 +309,10 @@ Section Fixed.
     split; apply all_some_app; assumption.
   Qed.
 
-  Lemma dflat_chars P l : all_chars P (dflat l) = true -> forallb (fun x => match x with NChr c => P c | _ => true end) l = true.
+  Lemma dflat_chars P l : all_chars P (dflat lay l) = true -> forallb (fun x => match x with NChr c => P c | _ => true end) l = true.
   Proof.
-    induction l as [|x l IH]; [reflexivity|]. cbn [dflat forallb]. rewrite all_chars_app. intros H. apply andb_true_iff in H as [Hx Hl].
-    rewrite (IH Hl), andb_true_r. destruct x; try reflexivity. cbn [dtext ntok_text all_chars] in Hx. rewrite andb_true_r in Hx. exact Hx.
+    induction l as [|x l IH]; [reflexivity|]. cbn [Denorm.dflat forallb]. rewrite all_chars_app. intros H. apply andb_true_iff in H as [Hx Hl].
+    rewrite (IH Hl), andb_true_r. destruct x; try reflexivity. cbn [Denorm.dtext ntok_text all_chars] in Hx. rewrite andb_true_r in Hx. exact Hx.
   Qed.
 
   Lemma whole_nobrace : nobrace whole = true.
@@ -341,16 +345,22 @@ Section Fixed.
 End Fixed.
 
 (* ================================================================== the theorem, from the decidable condition *)
-Theorem normal_form_fixed_point q :
-  dq_ok q = true -> parse_equation_M (denorm_text q) = of_outcome (equation_symbols (neq_text q) (neq_code q) (neq_terms q)).
+Theorem normal_form_fixed_point lay q :
+  dq_ok lay q = true -> parse_equation_M (denorm_text lay q) = of_outcome (equation_symbols (neq_text q) (neq_code q) (neq_terms q)).
 Proof.
   destruct q as [l r]. unfold dq_ok. cbn [nlhs nrhs]. destruct l as [|[y [ky|s]| | | |] ws]; try discriminate.
   intros H. apply andb_true_iff in H as [H Hnorm]. apply andb_true_iff in H as [H Hpar]. apply andb_true_iff in H as [H Htext].
-  apply andb_true_iff in H as [H Hrhs]. apply andb_true_iff in H as [H Hws]. apply andb_true_iff in H as [H Hshort].
-  apply andb_true_iff in H as [Hid Hkw].
-  destruct (count_parens 0 (denorm_text (mkNeq (NTerm y (IInt ky) :: ws) r))) as [[|n]|] eqn:Ep; try discriminate.
-  apply (fixed_point_section y ky ws r Hid Hkw Hshort Hws Hrhs Htext Ep Hnorm).
+  apply andb_true_iff in H as [H Hrhs]. apply andb_true_iff in H as [H Hws]. apply andb_true_iff in H as [H Hl].
+  apply andb_true_iff in H as [H Hshort]. apply andb_true_iff in H as [Hid Hkw].
+  destruct (lay y (IInt ky)) as [[w1 w2] plus] eqn:El. destruct w1; [|discriminate]. destruct w2; [|discriminate].
+  destruct (count_parens 0 (denorm_text lay (mkNeq (NTerm y (IInt ky) :: ws) r))) as [[|n]|] eqn:Ep; try discriminate.
+  apply (fixed_point_section lay y ky plus El ws r Hid Hkw Hshort Hws Hrhs Htext Ep Hnorm).
 Qed.
+
+(* layout does not matter: any two admissible ways of writing the index brackets give the same parse *)
+Corollary index_layout_irrelevant lay1 lay2 q :
+  dq_ok lay1 q = true -> dq_ok lay2 q = true -> parse_equation_M (denorm_text lay1 q) = parse_equation_M (denorm_text lay2 q).
+Proof. intros H1 H2. rewrite (normal_form_fixed_point lay1 q H1), (normal_form_fixed_point lay2 q H2). reflexivity. Qed.
 
 (* ================================================================== what the symbol-table loop can attach to a symbol *)
 Definition tame (eqn code : string) (s : symbol) : Prop :=
@@ -406,11 +416,11 @@ Proof.
   intros H; inversion H; subst. apply (go_tame eqn code terms [] [] d); [intros v []|exact E].
 Qed.
 
-Corollary fixed_point_symbols q syms :
-  dq_ok q = true -> parse_equation_M (denorm_text q) = POk syms ->
+Corollary fixed_point_symbols lay q syms :
+  dq_ok lay q = true -> parse_equation_M (denorm_text lay q) = POk syms ->
   forall s, In s syms -> tame (neq_text q) (neq_code q) s.
 Proof.
-  intros Hq Hp. rewrite (normal_form_fixed_point q Hq) in Hp.
+  intros Hq Hp. rewrite (normal_form_fixed_point lay q Hq) in Hp.
   destruct (equation_symbols (neq_text q) (neq_code q) (neq_terms q)) as [l|] eqn:E; [|discriminate].
   inversion Hp; subst. apply (equation_symbols_texts _ _ _ _ E).
 Qed.
